@@ -105,9 +105,10 @@ def plural (s : Str) : Str := if endsWith ['s'] s then s ++ s%"es" else s ++ ['s
 def lookupAV (k : Str) : List (Str × AV) → Option AV
   | [] => none
   | (k', v) :: r => if k' = k then some v else lookupAV k r
+/-- `d.pop(k, None)` (keys of a Python dict are unique) -/
 def delAV (k : Str) : List (Str × AV) → List (Str × AV)
   | [] => []
-  | (k', v) :: r => if k' = k then r else (k', v) :: delAV k r
+  | (k', v) :: r => if k' = k then delAV k r else (k', v) :: delAV k r
 def setAV (k : Str) (v : AV) : List (Str × AV) → List (Str × AV)
   | [] => [(k, v)]
   | (k', v') :: r => if k' = k then (k', v) :: r else (k', v') :: setAV k v r
@@ -219,17 +220,33 @@ def pairKV : R → Res (Str × J)
   | .tok _ => .error .unsupported         -- indexing a token gives characters
   | _ => .error .typeError
 
+/-- the `for t in body` loop of `process_value_pairs`: all (key, value) pairs, in order -/
+def kvPairs : List R → Res (List (Str × J))
+  | [] => .ok []
+  | t :: r =>
+    match pairKV t with
+    | .error e => .error e
+    | .ok kv => (match kvPairs r with | .ok kvs => .ok (kv :: kvs) | .error e => .error e)
+
+/-- `d[k] = v` for every pair on a case-insensitive dict: a later duplicate overwrites the value in place -/
+def kvDict (kvs : List (Str × J)) : Fields := kvs.foldl (fun d kv => setKey (lower kv.1) kv.2 d) []
+
 /-- `process_value_pairs(tokens, type_)` -/
-def valuePairs (cfg : Cfg) (type_ : Str) (tokens : List R) : Res R := do
-  let (key, body) ← checkComposite type_ tokens
-  let keyName ← valLower key
-  let kvs ← body.mapM pairKV
-  let d := kvs.foldl (fun d kv => setKey (lower kv.1) kv.2 d) ([] : Fields)
-  let d ← if cfg.pos then do
-      let pd ← positionDict key (some body)
-      pure (setKey s%"__position__" (.dict pd) d)
-    else pure d
-  pure (.cdict (setKey s%"__type__" (.str keyName) d))
+def valuePairs (cfg : Cfg) (type_ : Str) (tokens : List R) : Res R :=
+  match checkComposite type_ tokens with
+  | .error e => .error e
+  | .ok (key, body) =>
+    match valLower key with
+    | .error e => .error e
+    | .ok keyName =>
+      match kvPairs body with
+      | .error e => .error e
+      | .ok kvs =>
+        if cfg.pos then
+          match positionDict key (some body) with
+          | .error e => .error e
+          | .ok pd => .ok (.cdict (setKey s%"__type__" (.str keyName) (setKey posKey (.dict pd) (kvDict kvs))))
+        else .ok (.cdict (setKey s%"__type__" (.str keyName) (kvDict kvs)))
 
 /-- `projection(tokens)` -/
 def projection (tokens : List R) : Res R := do
@@ -430,20 +447,30 @@ def blockItem (singletons : List Str) (sub : Fields) (d : Fields) : Res Fields :
   | some _ => .error .unsupported
   | none => .error .keyError             -- a block dict always carries __type__
 
-/-- what `composite` reads off an `attr` dict: (key, value, position, comments) -/
-def attrParts (kvs : List (Str × AV)) : Res (Str × J × J × Option J) :=
-  if (lookupAV s%"__type__" kvs).isSome then .error .unsupported else
-  match lookupAV s%"__position__" kvs with
-  | some (.j pos) =>
-    let comments := match lookupAV s%"__comments__" kvs with | some (.j c) => some c | _ => none
-    match delAV s%"__comments__" (delAV s%"__tokens__" (delAV s%"__position__" kvs)) with
-    | [(key, .j v)] =>
-      if underscored key then .error .unsupported else
-      if stripJ v ≠ v then .error .unsupported else      -- user data never holds bookkeeping keys
-      .ok (key, v, pos, comments)
-    | [(_, .toks _)] => .error .unsupported
-    | _ => .error .assertionError
-  | _ => .error .keyError
+/-- the single remaining entry of an `attr` dict once the bookkeeping entries are popped -/
+def attrKV : List (Str × AV) → Res (Str × J)
+  | [(key, .j v)] =>
+    if underscored key then .error .unsupported
+    else if stripJ v = v then .ok (key, v)
+    else .error .unsupported               -- user data never holds bookkeeping keys
+  | [(_, .toks _)] => .error .unsupported
+  | _ => .error .assertionError
+
+def attrCore (ty pos : Option AV) (rest : List (Str × AV)) : Res (Str × J × J) :=
+  match ty with
+  | some _ => .error .unsupported
+  | none =>
+    match pos with
+    | some (.j p) => (match attrKV rest with | .ok (key, v) => .ok (key, v, p) | .error e => .error e)
+    | _ => .error .keyError
+
+def attrComments (kvs : List (Str × AV)) : Option J :=
+  match lookupAV s%"__comments__" kvs with | some (.j c) => some c | _ => none
+
+/-- what `composite` reads off an `attr` dict: (key, value, position) and the comments -/
+def attrParts (kvs : List (Str × AV)) : Res (Str × J × J) :=
+  attrCore (lookupAV s%"__type__" kvs) (lookupAV s%"__position__" kvs)
+    (delAV s%"__comments__" (delAV s%"__tokens__" (delAV s%"__position__" kvs)))
 
 /-- one element of `attribute_dicts` in `composite` -/
 def compositeItem (cfg : Cfg) (singletons repeated : List Str) (st : CState) : R → Res CState
@@ -453,31 +480,49 @@ def compositeItem (cfg : Cfg) (singletons repeated : List Str) (st : CState) : R
     | .error e => .error e
   | .adict kvs =>
     match attrParts kvs with
-    | .ok (key, v, pos, comments) => attrItem cfg repeated st key v pos comments
+    | .ok (key, v, pos) => attrItem cfg repeated st key v pos (attrComments kvs)
     | .error e => .error e
   | _ => .error .attributeError            -- `.keys()` of something that is not a dict
 
-/-- `MapfileTransformer.composite(t)` -/
-def composite (cfg : Cfg) (singletons repeated : List Str) (t : List R) : Res R := do
-  match t with
-  | [x] => pure x
-  | _ =>
-  let keyTok ← match ← nth t 0 with
-    | .seq _ (x :: _) => tokOf x
-    | .seq _ [] => .error .indexError
-    | _ => .error .unsupported
-  let items ← match ← nth t 1 with
-    | .seq false xs => pure xs
-    | x => pure [x]
-  let keyName ← valLower keyTok
+/-- `t[0][0]`: the block-type token -/
+def compositeKey : R → Res Tok
+  | .seq _ (x :: _) => tokOf x
+  | .seq _ [] => .error .indexError
+  | _ => .error .unsupported
+
+/-- `create_position_dict(key_token, None)` -/
+def posBase (key : Tok) : Fields := [(s%"line", key.line), (s%"column", key.col)]
+
+/-- the dict `composite` starts from: `__type__`, then `__position__` / `__comments__` when asked for -/
+def initState (cfg : Cfg) (keyName : Str) (key : Tok) : CState :=
   let d0 : Fields := [(s%"__type__", .str keyName)]
-  let pd0 ← if cfg.pos then do pure (some (← positionDict keyTok none)) else pure none
-  let d1 := match pd0 with | some p => d0 ++ [(s%"__position__", .dict p)] | none => d0
-  let d2 := if cfg.com then d1 ++ [(s%"__comments__", .dict [])] else d1
-  let st ← items.foldlM (compositeItem cfg singletons repeated) ({ d := d2, pd := pd0, cd := [] } : CState)
-  let d3 := match st.pd with | some p => setKey s%"__position__" (.dict p) st.d | none => st.d
-  let d4 := if cfg.com then setKey s%"__comments__" (.dict st.cd) d3 else d3
-  pure (.cdict d4)
+  let d1 := if cfg.pos then d0 ++ [(posKey, .dict (posBase key))] else d0
+  let d2 := if cfg.com then d1 ++ [(comKey, .dict [])] else d1
+  { d := d2, pd := if cfg.pos then some (posBase key) else none, cd := [] }
+
+/-- `position_dict` and `comments_dict` are the objects stored under the two hidden keys -/
+def finishState (cfg : Cfg) (st : CState) : Fields :=
+  let d3 := match st.pd with | some p => setKey posKey (.dict p) st.d | none => st.d
+  if cfg.com then setKey comKey (.dict st.cd) d3 else d3
+
+def compositeBody (cfg : Cfg) (singletons repeated : List Str) (keyTok : Tok) (items : List R) : Res R :=
+  match valLower keyTok with
+  | .error e => .error e
+  | .ok keyName =>
+    match items.foldlM (compositeItem cfg singletons repeated) (initState cfg keyName keyTok) with
+    | .error e => .error e
+    | .ok st => .ok (.cdict (finishState cfg st))
+
+/-- `MapfileTransformer.composite(t)` -/
+def composite (cfg : Cfg) (singletons repeated : List Str) (t : List R) : Res R :=
+  match t with
+  | [x] => .ok x
+  | ty :: body :: _ =>
+    match compositeKey ty with
+    | .error e => .error e
+    | .ok keyTok =>
+      compositeBody cfg singletons repeated keyTok (match body with | .seq false xs => xs | x => [x])
+  | [] => .error .indexError
 
 /-! ### dispatch -/
 
@@ -673,5 +718,47 @@ def resultJ : R → Option J
   | .cdict d => some (.dict d)
   | .seq false xs => (xs.mapM fun (x : R) => match x with | R.cdict d => some (J.dict d) | _ => none).map J.list
   | _ => none
+
+/-! ### tree shapes (hypotheses of the C13 / C02 theorems, evaluated on every real tree by the harness) -/
+
+def flagNames : List Str := [s%"composite", s%"metadata", s%"values", s%"validation", s%"connectionoptions"]
+
+mutual
+/-- a subtree without block nodes and without already transformed dicts -/
+def flagFree : R → Bool
+  | .tree data _ xs => !flagNames.contains data && flagFreeL xs
+  | .tok _ => true
+  | .str _ => true
+  | .seq _ xs => flagFreeL xs
+  | .adict _ => false
+  | .cdict _ => false
+def flagFreeL : List R → Bool
+  | [] => true
+  | x :: r => flagFree x && flagFreeL r
+end
+
+def attrNames : List Str := [s%"attr", s%"config", s%"points", s%"pattern", s%"projection"]
+def kvNames : List Str := [s%"metadata", s%"values", s%"validation", s%"connectionoptions"]
+
+mutual
+/-- the shapes the grammar gives the items of a block (Bool version of `ShapeItem`) -/
+def shapeItemB : R → Bool
+  | .tree data _ xs =>
+    if data = s%"composite" then
+      match xs with
+      | [.tree d2 _ ys] => kvNames.contains d2 && flagFreeL ys
+      | [ty, .tree b _ items] => (b == s%"composite_body") && flagFree ty && shapeItemsB items
+      | _ => false
+    else (attrNames.contains data || kvNames.contains data) && flagFreeL xs
+  | _ => false
+def shapeItemsB : List R → Bool
+  | [] => true
+  | x :: r => shapeItemB x && shapeItemsB r
+end
+
+/-- the root of a parsed (canonized) document: `start` over grammar-shaped blocks, or one such block (SYMBOLSET) -/
+def shapeRootB : R → Bool
+  | .tree data cm xs => if data = s%"start" then shapeItemsB xs else shapeItemB (.tree data cm xs)
+  | _ => false
 
 end Mappy.Transformer
